@@ -366,6 +366,8 @@ def run_case(case, ctx):
                 record(kind, (key, a, b, c), ok, {'why': 'wrong-values', 'got': C.short(C.image(got)), 'want': C.short(C.image_slice(Rimg, slice(a, b, c)))})
             elif kind == 'read':
                 o, l = rng.randrange(0, n + 2), rng.choice([None, 0, 1, 2, rng.randrange(0, n + 2)])
+                if rng.random() < 0.15:
+                    o, l = 0, None             # the complete channel in one call
                 got = ch.read_data(o, l)
                 keep(kind, got)
                 want = C.image_slice(Rimg, slice(o, None if l is None else o + l))
@@ -455,11 +457,13 @@ def advance(ctx, g, fresh, fresh_file, chans, record, kind):
 def inspect(ctx, g, seq, chans, record, kind, j, chunk):
     if g['kind'] == 'chan':
         got = (chunk.offset, C.image(chunk[:]))
-        ok = got[0] == seq[j][0] and C.img_equal(got[1], seq[j][1])
+        again = C.image(chunk[:])               # a chunk object answers the same every time it is asked
+        ok = got[0] == seq[j][0] and C.img_equal(got[1], seq[j][1]) and C.img_equal(again, seq[j][1])
         record(kind, (g['kind'], g['key'], j), ok, {'why': 'chunk-differs-from-fresh', 'got': (got[0], C.short(got[1])), 'want': (seq[j][0], C.short(seq[j][1]))})
     else:
         got = chunk_images(chunk, chans)
-        bad = [k for k in got if got[k][0] != seq[j][k][0] or not C.img_equal(got[k][1], seq[j][k][1])]
+        again = chunk_images(chunk, chans)
+        bad = [k for k in got if got[k][0] != seq[j][k][0] or not C.img_equal(got[k][1], seq[j][k][1]) or not C.img_equal(again[k][1], seq[j][k][1])]
         record(kind, (g['kind'], None, j), not bad, {'why': 'chunk-differs-from-fresh', 'channels': bad[:3],
                                                      'got': [(got[k][0], C.short(got[k][1])) for k in bad[:2]],
                                                      'want': [(seq[j][k][0], C.short(seq[j][k][1])) for k in bad[:2]]})
